@@ -222,6 +222,14 @@ func (w *World) Reopen(withCreate bool) {
 		return
 	}
 	clockSettle()
+	// the closed handle must not be closed again at cleanup: it would commit
+	// concurrently with the new handle's flusher (two handles, one directory)
+	for i, h := range w.handles {
+		if h == w.db {
+			w.handles = append(w.handles[:i], w.handles[i+1:]...)
+			break
+		}
+	}
 	w.Open()
 	if withCreate {
 		if err := w.Create(); err != nil {
